@@ -570,6 +570,41 @@ static void run_qsbr(void)
 }
 #endif
 
+#ifdef FLAVOR_QSBR
+/* qsbr: the reader stays registered and online and keeps reporting quiescent states (nothing else).  The first report after the
+ * grace period started is the only one that does anything - later ones return early because the reader's counter is current - so
+ * it alone must wake an updater which went to sleep waiting for this reader. */
+#define N_QSGO 356
+static int qsgo_pred(void *a) { (void)a; return (int)vrt_note_get(N_QSGO); }
+
+static void *rd_qs_idle(void *a)
+{
+	(void)a;
+	reader_enter();
+	setr(0, LD(x));
+	MID();
+	while (!qsgo_pred(NULL)) {
+		rcu_quiescent_state();
+		vrt_yield();
+	}
+	reader_leave();
+	return NULL;
+}
+
+static void run_qs_idle(void)
+{
+	pthread_t t;
+
+	pthread_create(&t, NULL, rd_qs_idle, NULL);
+	wait_readers(1);
+	ST(x, 1);
+	do_sync();		/* must return: the reader's quiescent-state report has to wake us if we sleep */
+	ST(y, 1);
+	vrt_note_set(N_QSGO, 1);
+	pthread_join(t, NULL);
+}
+#endif
+
 /* ---- C15: registration dynamics ------------------------------------------------------------------------------------------- */
 /* reader registers, runs a section, unregisters, registers again, second section */
 static void *rd_rereg(void *a)
@@ -893,6 +928,7 @@ static void *rd_hold(void *a)
 		for (u = 0; u < 8; u++)
 			VRT_CHECK(u == t || vrt_note_get(N_SLOT(u)) != slot, "slot_hole: live threads T%d and T%d share reader slot %#lx", t, u, slot);
 		vrt_note_set(N_SLOT(t), slot);
+		vrt_note_set(N_SLOTLOG(vrt_note_inc(N_NSLOT) & 7), slot);
 	}
 	setr(k, LD(x));
 	vrt_await(gok_pred, (void *)(long)k);
@@ -940,6 +976,26 @@ static void run_slot_hole(void)
 	check_intervals("slot_hole");
 	do_sync();
 	check_registry("slot_hole");
+#ifdef FLAVOR_BP
+	{
+		/* never more than three threads (main + two) were registered at once: the third thread must have been given the slot the first
+		 * one released (its only chance, the later slot is still occupied), not a fresh one */
+		unsigned long seen[9];
+		int n = 0, i, j, nlog = (int)vrt_note_get(N_NSLOT);
+
+		seen[n++] = MY_SLOT();
+		for (i = 0; i < nlog && i < 8; i++) {
+			unsigned long sl = vrt_note_get(N_SLOTLOG(i));
+
+			for (j = 0; j < n && seen[j] != sl; j++)
+				;
+			if (j == n)
+				seen[n++] = sl;
+		}
+		VRT_CHECK(n <= 3, "slot_hole: %d distinct reader slots were handed out although at most 3 threads were registered at any time: the "
+			  "slot of the exited thread was not reused", n);
+	}
+#endif
 }
 
 /* ---- C19: read-side sections in signal handlers ---------------------------------------------------------------------------- */
@@ -1230,6 +1286,9 @@ struct vrt_scenario vrt_scenarios[] = {
 	{ "bp_fork_handlers", run_bp_fork_handlers, "bp: before_fork / after_fork_parent || synchronize_rcu || reader" },
 #endif
 	{ "leave_block", run_leave_block, "a thread that left (unregistered/offline/exited) is not waited for" },
+#ifdef FLAVOR_QSBR
+	{ "qs_idle", run_qs_idle, "qsbr: an online reader only reports quiescent states; the first report after the grace period began must wake the sleeping updater" },
+#endif
 	{ "late_register", run_late_register, "a thread registers while a grace period waits for another reader, stays registered; next grace period must wait for it" },
 	{ "churn", run_churn, "n readers come and go around a grace period (bp: registry growth)" },
 	{ "slot_hole", run_slot_hole, "a reader exits while a later one is alive in a section; a new one registers" },
